@@ -26,7 +26,7 @@ ASSUMPTIONS = [
     "constant/keyword, or a name of the generated module's own vocabulary)",
 ]
 REQUIRED_COUNTERS = [
-    "names.mapped", "e2e.instances", "siblings.sets", "siblings.distinct_ok", "titles.modules_executed",
+    "names.mapped", "e2e.instances", "e2e.properties_parsed_twice", "siblings.sets", "siblings.distinct_ok", "titles.modules_executed",
     "titles.mapped", "titles.distinct_ok", "titles.sets_without_f22_trigger", "cat.Lu", "cat.Ll", "cat.Nd", "cat.No", "cat.Zs", "cat.Po", "cat.Sm", "cat.Mn",
     "cat.Cc", "cat.Cs", "cat.Co", "cat.Cn", "cat.Lo", "cat.Lm", "pool.keywords", "pool.dunder",
 ]
@@ -177,14 +177,30 @@ def function_level(ctx, sut):
     return e2e_names
 
 
-def e2e_name(ctx, sut, name, pool):
-    """Parse an object schema with this property, build an instance, read it back."""
+def e2e_name(ctx, sut, name, pool, variant=0):
+    """Parse an object schema with this property, build an instance, read it back.  Variants make the
+    parser visit the properties more than once (a composition keyword next to them; the same object
+    used in two places)."""
     schema = {"type": "object", "title": "Holder", "properties": {name: {"type": "string"}}}
+    if variant == 1:
+        schema["anyOf"] = [{}]
+    elif variant == 2:
+        schema["not"] = {"type": "null"}
+    elif variant == 3:
+        schema = {"properties": {"first": schema, "second": schema}}
     ctx.evaluation()
     ctx.count("pool." + pool)
-    ctx.nontrivial("e:" + name)
+    if variant:
+        ctx.count("e2e.properties_parsed_twice")
+    ctx.nontrivial(f"e{variant}:" + name)
     try:
-        cls = sut.parse_direct(schema)
+        if variant == 3:
+            # the caller's own (shared) dict, as json_ref_dict hands shared $ref targets to the parser
+            root = sut.st_parser.parse_element(sut.add_titles(schema) if False else _share(schema))
+        else:
+            root = sut.parse_direct(schema)
+        classes = [c for c in sut.get_object_classes(root) if c.__name__ == "Holder"]
+        cls = classes[0] if classes else root
     except sut.SchemaDefinitionError as exc:
         ctx.witness("property_refused", {"name": name}, f"parse refused the property name: {exc!r}")
         return
@@ -222,6 +238,14 @@ def e2e_name(ctx, sut, name, pool):
         ctx.witness("unusable_property", {"name": name, "attr": attr, "pool": pool}, "; ".join(problems))
 
 
+def _share(schema):
+    """Deep copy of {'properties': {'first': X, 'second': X}} that keeps X one shared dict object."""
+    import copy as _copy  # pylint: disable=import-outside-toplevel
+
+    inner = _copy.deepcopy(schema["properties"]["first"])
+    return {"properties": {"first": inner, "second": inner}}
+
+
 def pools(ctx, sut):
     import builtins  # pylint: disable=import-outside-toplevel
 
@@ -248,7 +272,13 @@ def pools(ctx, sut):
             e2e_name(ctx, sut, name, "dunder")
     for idx, name in enumerate(special):
         if idx % ctx.nshards == ctx.shard:
-            e2e_name(ctx, sut, name, "special")
+            for variant in range(4):
+                e2e_name(ctx, sut, name, "special", variant=variant)
+    renamed = ["class", "my-prop", "a b", "1st", "é", "for", "__init__", "a.b", ""]
+    for idx, name in enumerate(renamed):
+        if idx % ctx.nshards == ctx.shard:
+            for variant in range(4):
+                e2e_name(ctx, sut, name, "renamed", variant=variant)
     if ctx.shard:
         ctx.count("pool.keywords", 0)
 
@@ -459,8 +489,8 @@ def run_shard(ctx):
     from vlib import sut  # pylint: disable=import-outside-toplevel
 
     e2e_names = function_level(ctx, sut)
-    for name in e2e_names:
-        e2e_name(ctx, sut, name, "sampled")
+    for pos, name in enumerate(e2e_names):
+        e2e_name(ctx, sut, name, "sampled", variant=pos % 4)
     pools(ctx, sut)
     sibling_sets(ctx, sut)
     title_sets(ctx, sut)
